@@ -771,6 +771,8 @@ struct Digit {
                     if (m_shift < positive_exp) {
                         b_int <<= (positive_exp - m_shift);
                     } else {
+                        // Any non-zero bit dropped here makes a trailing '5' more than a tie.
+                        round_up = (first_shift < (m_shift - positive_exp));
                         b_int >>= (m_shift - positive_exp);
                     }
 
